@@ -108,7 +108,12 @@ impl ServerState {
       }
     }
     for (mod_ref, mod_scoped_errors) in grouped_errors {
-      self.errors.insert(mod_ref, mod_scoped_errors);
+      if self.parsed_modules.contains_key(&mod_ref) {
+        self.errors.insert(mod_ref, mod_scoped_errors);
+      } else {
+        // No file has this name (any more): e.g. renamed to and away again within one request.
+        self.errors.remove(&mod_ref);
+      }
     }
 
     // GC
